@@ -44,7 +44,7 @@ fn c01_repository_selection_bg() {
 
 /// deeper paths and other categories (concrete shapes): music/ex2/a/b, exd/root.exl, chara/x
 #[kani::proof]
-#[kani::unwind(20)]
+#[kani::unwind(28)]
 #[kani::stub(std::hash::RandomState::new, fixed_random_state)]
 #[kani::stub(core::slice::memchr::memchr_aligned, naive_memchr)]
 fn c01_repository_selection_shapes() {
@@ -57,6 +57,11 @@ fn c01_repository_selection_shapes() {
     assert!(c == Category::Character && r.name == "ex1");
     let (r, c) = gd.parse_repository_category("bg/ffxiv/fst_f1/x.lgb").unwrap();
     assert!(c == Category::Background && r.name == "ffxiv");
+    // a base-game file or folder whose name merely BEGINS like an expansion name stays in the base repository
+    let (r, c) = gd.parse_repository_category("exd/ex1_opening_0.exd").unwrap();
+    assert!(c == Category::EXD && r.name == "ffxiv");
+    let (r, c) = gd.parse_repository_category("music/ex2_preview/bgm.scd").unwrap();
+    assert!(c == Category::Music && r.name == "ffxiv");
     // unknown category -> None
     assert!(gd.parse_repository_category("nope/ex1/x").is_none());
     // no directory at all -> None
